@@ -224,7 +224,7 @@ func (d *Decoder) unmarshal(val reflect.Value, tagType byte) error {
 			val.SetBytes(ba)
 		} else if vt.Kind() == reflect.Slice {
 			switch ve := vt.Elem(); ve.Kind() {
-			case reflect.Int8, reflect.Uint8:
+			case reflect.Int8, reflect.Uint8, reflect.Bool:
 				length := int(aryLen)
 				if val.Cap() < length {
 					val.Set(reflect.MakeSlice(vt, length, length))
@@ -238,6 +238,10 @@ func (d *Decoder) unmarshal(val reflect.Value, tagType byte) error {
 				case reflect.Uint8:
 					for i := 0; i < length; i++ {
 						val.Index(i).Set(reflect.ValueOf(ba[i]))
+					}
+				case reflect.Bool:
+					for i := 0; i < length; i++ {
+						val.Index(i).SetBool(ba[i] != 0)
 					}
 				}
 			default:
